@@ -9,7 +9,7 @@
    argument of another type and a BYREF argument that is not a variable never produce a value.
    PARTIAL: that a function call yields the value of the RETURN it executed, and the lifetime of locals, are compared with the
    implementation by the correspondence, under the sanitizer build too. *)
-From PE2 Require Import Parser Eval Lemmas_Calls Lemmas_DeepCopy Lemmas_Scope.
+From PE2 Require Import Parser Eval Lemmas_Calls Lemmas_DeepCopy Lemmas_Scope Run Lemmas_CallStates.
 Local Open Scope N_scope.
 
 Theorem C04_sticky_modes_and_type_groups : forall ps ped,
@@ -90,3 +90,33 @@ Theorem C04_byref_argument_must_be_a_variable : forall self t pn pty pr a ar v v
   exists f s', bind_args_body self t ((pn, pty, true) :: pr) (a :: ar) (v :: vr) c fc s = (Fail f, s').
 Proof. exact byref_argument_must_be_a_variable. Qed.
 Print Assumptions C04_byref_argument_must_be_a_variable.
+
+(* ---- RETURN, statement by statement, in every state (the returned expression any that evaluates without touching the state) ---- *)
+(* outside a function: a runtime error, the whole state as it was *)
+Theorem C04_return_outside_a_function_is_an_error : forall ped repl lim fuel t e c s cx,
+  nm_get c (s_ctxs s) = Some cx -> x_isfun cx = false -> exists f, ev_eval (evs_at ped repl lim (S fuel)) (NReturn t e) c s = (Fail f, s).
+Proof. exact return_outside_a_function_is_an_error. Qed.
+Print Assumptions C04_return_outside_a_function_is_an_error.
+
+(* inside a function: the value, converted to the declared return type, is recorded in the function's own context -- no variable,
+   array, file or output changes -- and the body ends with the return signal; the call then yields exactly that recorded value *)
+Theorem C04_return_records_the_converted_value : forall ped repl lim fuel t e c s cx r r',
+  nm_get c (s_ctxs s) = Some cx -> x_isfun cx = true ->
+  ev_eval (evs_at ped repl lim fuel) e c s = (Ok r, s) ->
+  (forall s0, implicit_cast (x_rettype cx) r s0 = (Ok r', s0)) -> dt_eq (r_type r') (x_rettype cx) = true ->
+  let s1 := set_ctxs (nm_put c (ctx_with_retval (Some r) cx) (s_ctxs s)) s in
+  let s2 := set_ctxs (nm_put c (ctx_with_retval (Some r') (ctx_with_retval (Some r) cx)) (s_ctxs s1)) s1 in
+  ev_eval (evs_at ped repl lim (S fuel)) (NReturn t e) c s = (Fail FReturn, s2).
+Proof. exact return_records_the_converted_value. Qed.
+Print Assumptions C04_return_records_the_converted_value.
+
+(* a value whose type, after the implicit conversions, is not the declared return type: the runtime error raised at the RETURN *)
+Theorem C04_return_of_another_type_is_an_error : forall ped repl lim fuel t e c s cx r r',
+  nm_get c (s_ctxs s) = Some cx -> x_isfun cx = true ->
+  ev_eval (evs_at ped repl lim fuel) e c s = (Ok r, s) ->
+  (forall s0, implicit_cast (x_rettype cx) r s0 = (Ok r', s0)) -> dt_eq (r_type r') (x_rettype cx) = false ->
+  let s1 := set_ctxs (nm_put c (ctx_with_retval (Some r) cx) (s_ctxs s)) s in
+  let s2 := set_ctxs (nm_put c (ctx_with_retval (Some r') (ctx_with_retval (Some r) cx)) (s_ctxs s1)) s1 in
+  ev_eval (evs_at ped repl lim (S fuel)) (NReturn t e) c s = rt_error t c s2.
+Proof. exact return_of_a_value_of_another_type_is_an_error. Qed.
+Print Assumptions C04_return_of_another_type_is_an_error.
